@@ -520,6 +520,10 @@ func (s *Sched) caseReady(self *goroutine, c *selCase) bool {
 		if ch.closed || len(ch.buf) < ch.capacity {
 			return true
 		}
+		if len(ch.buf) > 0 {
+			// full buffer: a pending receiver must take from the buffer first
+			return false
+		}
 		p, _ := s.parkedPeer(self, ch, false)
 		return p != nil
 	}
